@@ -27,6 +27,7 @@ Conventions
 -/
 import LA.Model.Util
 import LA.Gen.EntryBits
+import LA.Gen.EntryFflags
 namespace LA.Entry
 open LA.Gen.EntryBits
 
@@ -118,6 +119,8 @@ structure Entry where
   aest_rdevminor : Nat := 0
   /-- `acl.mode`: file type and permission bits share this word -/
   mode : BitVec 32 := 0
+  /-- `ae_fflags_text` (text fflags per fflagstostr(3)), `none` = no form set -/
+  ae_fflags_text : Option Bytes := none
   ae_fflags_set : Nat := 0
   ae_fflags_clear : Nat := 0
   ae_gname : Option Bytes := none
@@ -376,13 +379,84 @@ def hardlinkIsSet (e : Entry) : Bool := e.has fHARDLINK
 /-- `archive_entry_symlink`, `_symlink_utf8`, `_symlink_w` -/
 def symlink (e : Entry) : Option Bytes := if e.has fSYMLINK then e.ae_linkname else none
 
-/-! ### file flags (bitmaps only), symlink type, encryption -/
+/-! ### file flags (bitmaps and text; the name table is `LA.Gen.EntryFflags.fileflags`), symlink type, encryption -/
 
-/-- `archive_entry_set_fflags` (`unsigned long`, 64 bit) -/
+/-- token separators of `ae_strtofflags` / `ae_wcstofflags`: tab, blank, comma -/
+def isSep (b : Nat) : Bool := b == 9 || b == 32 || b == 44
+
+/-- The tokens of a flag string with the offset each starts at. -/
+def fflagTokens (s : Bytes) : List (Nat × Bytes) := go s 0 none
+where
+  go : Bytes → Nat → Option (Nat × Bytes) → List (Nat × Bytes)
+  | [], _, none => []
+  | [], _, some (st, acc) => [(st, acc.reverse)]
+  | b :: r, i, cur =>
+    if isSep b then
+      match cur with
+      | none => go r (i + 1) none
+      | some (st, acc) => (st, acc.reverse) :: go r (i + 1) none
+    else
+      match cur with
+      | none => go r (i + 1) (some (i, [b]))
+      | some (st, acc) => go r (i + 1) (some (st, b :: acc))
+
+/-- One token against `fileflags[]`, first matching row wins: `(set, clear)` contribution.
+"noXXXX" reverses the sense, "XXXX" does not. -/
+def matchFlag (tok : Bytes) : List (Bytes × Nat × Nat) → Option (Nat × Nat)
+  | [] => none
+  | (name, fset, fclear) :: rest =>
+    if tok == name then some (fclear, fset)
+    else if tok == name.drop 2 then some (fset, fclear)
+    else matchFlag tok rest
+
+/-- `ae_strtofflags` (and `ae_wcstofflags`, whose table holds the same ASCII names):
+every token is tried, unknown ones are skipped; result `(set, clear, offset of the first
+unknown token)`. -/
+def strtofflags (s : Bytes) : Nat × Nat × Option Nat :=
+  (fflagTokens s).foldl (fun (acc : Nat × Nat × Option Nat) t =>
+    match matchFlag t.2 LA.Gen.EntryFflags.fileflags with
+    | some (a, b) => (acc.1 ||| a, acc.2.1 ||| b, acc.2.2)
+    | none => (acc.1, acc.2.1, match acc.2.2 with | none => some t.1 | some f => some f)) (0, 0, none)
+
+/-- `x & ~m` on `unsigned long` -/
+def andNot64 (x m : Nat) : Nat := x &&& (m ^^^ (two64 - 1))
+
+/-- `ae_fflagstostr`: comma separated names of the flags present in either bitmap, in
+table order, each flag once (the first of its aliases); `none` when no known flag is present. -/
+def fflagstostr (bitset bitclear : Nat) : Option Bytes :=
+  let names := go bitset bitclear LA.Gen.EntryFflags.fileflags
+  if names.isEmpty then none else some (List.intercalate [44] names)
+where
+  go (bitset bitclear : Nat) : List (Bytes × Nat × Nat) → List Bytes
+  | [] => []
+  | (name, fset, fclear) :: rest =>
+    if (bitset &&& fset) != 0 || (bitclear &&& fclear) != 0 then
+      name.drop 2 :: go (andNot64 bitset (fset ||| fclear)) (andNot64 bitclear (fset ||| fclear)) rest
+    else if (bitset &&& fclear) != 0 || (bitclear &&& fset) != 0 then
+      name :: go (andNot64 bitset (fset ||| fclear)) (andNot64 bitclear (fset ||| fclear)) rest
+    else go bitset bitclear rest
+
+/-- `archive_entry_set_fflags` (`unsigned long`, 64 bit): the text form is dropped -/
 def setFflags (e : Entry) (s c : Nat) : Entry :=
-  { e with ae_fflags_set := s % two64, ae_fflags_clear := c % two64 }
+  { e with ae_fflags_text := none, ae_fflags_set := s % two64, ae_fflags_clear := c % two64 }
 /-- `archive_entry_fflags` -/
 def fflags (e : Entry) : Nat × Nat := (e.ae_fflags_set, e.ae_fflags_clear)
+
+/-- `archive_entry_copy_fflags_text`, `_copy_fflags_text_len`, `_copy_fflags_text_w`:
+the text is kept as given, both bitmaps are replaced by what the known tokens say. -/
+def copyFflagsText (e : Entry) (s : Bytes) : Entry :=
+  { e with ae_fflags_text := some s, ae_fflags_set := (strtofflags s).1, ae_fflags_clear := (strtofflags s).2.1 }
+
+/-- what `archive_entry_fflags_text` returns: the stored text if there is one, else the
+text generated from the bitmaps (NULL when both are 0 or hold no known flag) -/
+def fflagsTextV (e : Entry) : Option Bytes :=
+  match e.ae_fflags_text with
+  | some t => some t
+  | none => if e.ae_fflags_set == 0 && e.ae_fflags_clear == 0 then none
+            else fflagstostr e.ae_fflags_set e.ae_fflags_clear
+/-- `archive_entry_fflags_text`: a generated text is stored in the entry -/
+def fflagsText (e : Entry) : Entry × Option Bytes :=
+  ({ e with ae_fflags_text := fflagsTextV e }, fflagsTextV e)
 
 /-- `archive_entry_set_symlink_type` (`int`) -/
 def setSymlinkType (e : Entry) (t : Int) : Entry := { e with ae_symlink_type := t }
@@ -584,7 +658,7 @@ inductive Op
   | setHardlink (v : Option Bytes) | copyHardlink (v : Option Bytes)
   | setSymlink (v : Option Bytes) | setLink (v : Option Bytes)
   | setLinkToHardlink | setLinkToSymlink
-  | setFflags (s c : Nat) | setSymlinkType (t : Int)
+  | setFflags (s c : Nat) | copyFflagsText (s : Bytes) | fflagsText | setSymlinkType (t : Int)
   | setIsDataEncrypted (b : Bool) | setIsMetadataEncrypted (b : Bool)
   | sparseAdd (o l : Int) | sparseClear | sparseCount | sparseReset | sparseNext
   | xattrAdd (n v : Bytes) | xattrClear | xattrReset | xattrNext
@@ -609,7 +683,8 @@ def step (e : Entry) : Op → Option Entry
   | .setHardlink v => some (setHardlink e v) | .copyHardlink v => some (copyHardlink e v)
   | .setSymlink v => some (setSymlink e v) | .setLink v => some (setLink e v)
   | .setLinkToHardlink => some (setLinkToHardlink e) | .setLinkToSymlink => some (setLinkToSymlink e)
-  | .setFflags s c => some (setFflags e s c) | .setSymlinkType t => some (setSymlinkType e t)
+  | .setFflags s c => some (setFflags e s c) | .copyFflagsText s => some (copyFflagsText e s)
+  | .fflagsText => some (fflagsText e).1 | .setSymlinkType t => some (setSymlinkType e t)
   | .setIsDataEncrypted b => some (setIsDataEncrypted e b)
   | .setIsMetadataEncrypted b => some (setIsMetadataEncrypted e b)
   | .sparseAdd o l => some (sparseAdd e o l) | .sparseClear => some (sparseClear e)
@@ -799,10 +874,10 @@ def Api.coverage : Api → Coverage
   | .archive_entry_acl_to_text_w => .leftOut "ACL list: property C15"
   | .archive_entry_acl_types => .leftOut "ACL list: property C15"
   | .archive_entry_copy_bhfi => .leftOut "Windows only"
-  | .archive_entry_copy_fflags_text => .leftOut "flag-name table is platform specific; bitmaps are modelled"
-  | .archive_entry_copy_fflags_text_len => .leftOut "flag-name table is platform specific; bitmaps are modelled"
-  | .archive_entry_copy_fflags_text_w => .leftOut "flag-name table is platform specific; bitmaps are modelled"
-  | .archive_entry_fflags_text => .leftOut "flag-name table is platform specific; bitmaps are modelled"
+  | .archive_entry_copy_fflags_text => .modelled
+  | .archive_entry_copy_fflags_text_len => .modelled
+  | .archive_entry_copy_fflags_text_w => .modelled
+  | .archive_entry_fflags_text => .modelled
   | .archive_entry_linkify => .leftOut "link resolver: property C17"
   | .archive_entry_linkresolver_free => .leftOut "link resolver: property C17"
   | .archive_entry_linkresolver_new => .leftOut "link resolver: property C17"
